@@ -287,6 +287,16 @@ def queue_check(ctx):
 @check("C09", "model_checking")
 def c09(ctx):
     queue_check(ctx)
+    # the end-to-end clause for socket traffic: every packet a TCP socket receives (SYN, SYN+ACK, payload, re-sent
+    # payload, ACK, FIN) passed the sender's first hop, and not sooner before than the route's latencies and
+    # serialisation times add up to (TraceTcp.tla: Travelled / MinDelay); UDP datagrams likewise (TraceUdp.tla)
+    ctx.rule += ("; plus TCP programs over routes out-queue -> [network queue] -> in-queue with random latencies, "
+                 "bandwidths and finite capacities (tail drops and re-sent segments): TLC requires of every packet reaching a "
+                 "socket that it was seen at the sender's first hop at least latency + serialisation time of every hop of "
+                 "its route earlier; and UDP programs over the same kind of routes: one-way delay of every delivered datagram "
+                 ">= the sum along its route")
+    tcp_pipeline(ctx, "C09", n_quick=100, n_thorough=3000)
+    udp_pipeline(ctx, "C09", n_quick=400, n_thorough=20000, mc=False)
 
 
 @check("C10", "model_checking")
@@ -726,6 +736,9 @@ def classify_udp_reject(rj):
             return "C20", "udp.send-result(oversize,df=%s)->%s" % (df.get(ev["s"], False), ev["ec"])
         return "C08", "udp.send-result(size=%s)->%s/%s" % ("0" if ev["size"] == 0 else ">65535" if ev["size"] > 65535 else "n", ev["ret"] != 0, ev["ec"])
     if name == "Arrive":
+        sj = rj.get("state_json") or {}
+        if "need" in sj and sj.get("elapsed", 0) + 1 < sj["need"]:
+            return "C09", "udp.faster-than-the-route-allows"
         sd = sends.get(ev["id"])
         if sd and sd["over"] and sd["df"]:
             return "C20", "udp.df-oversize-datagram-delivered"
@@ -751,17 +764,18 @@ def classify_udp_reject(rj):
     return "C08", "udp.reject@" + str(name)
 
 
-def udp_pipeline(ctx, owner):
+def udp_pipeline(ctx, owner, n_quick=2500, n_thorough=60000, mc=True):
     q = ctx.tier == "quick"
-    vlib.tlc_mc(ctx, "MCUdp.tla", "MC_Udp.cfg", timeout=900)
     files = []
-    g = ctx.path("us_mc_raw.ndjson")
-    vlib.tlc_gen(ctx, "GenUdp.tla", "Gen_Udp.cfg", g, simulate=(150 if q else 3000, 60))
-    f1 = ctx.path("us_mc.ndjson")
-    convert_mc_udp(g, f1)
-    files.append(f1)
+    if mc:
+        vlib.tlc_mc(ctx, "MCUdp.tla", "MC_Udp.cfg", timeout=900)
+        g = ctx.path("us_mc_raw.ndjson")
+        vlib.tlc_gen(ctx, "GenUdp.tla", "Gen_Udp.cfg", g, simulate=(150 if q else 3000, 60))
+        f1 = ctx.path("us_mc.ndjson")
+        convert_mc_udp(g, f1)
+        files.append(f1)
     f2 = ctx.path("us_rand.ndjson")
-    rand_udp_programs(ctx.seed, 2500 if q else 60000, f2)
+    rand_udp_programs(ctx.seed, n_quick if q else n_thorough, f2)
     files.append(f2)
     for f in files:
         res, total, chunks = vlib.replay(ctx, "record-udp", f, keep=True, env={"VH_WALL_LIMIT": "900"})
@@ -795,6 +809,8 @@ def udp_pipeline(ctx, owner):
                             nt = txt.count('"e":"Recv"') >= 1 and ('"op":"close"' in txt or txt.count('"e":"Recv"') >= 3 or "would_block" in txt)
                         elif owner == "C13":
                             nt = '"from":["X1"' in txt
+                        elif owner == "C09":
+                            nt = txt.count('"e":"Arrive"') >= 2
                         else:
                             nt = '"op":"df"' in txt and '"e":"Send"' in txt
                         if nt:
@@ -994,6 +1010,12 @@ def classify_tcp_reject(rj):
     if name == "ArriveSock":
         if not ev.get("same", True):
             return "C20", "tcp.segment-altered-in-transit"
+        if "wired" in sj and not sj["wired"]:
+            # it reached the socket without having passed the sender's first hop (e.g. a re-sent packet that kept
+            # a consumed route): a stream-integrity matter (C05) and a route / end-to-end delay matter (C09)
+            return ("C05", "C09"), "tcp.arrival-never-put-on-the-wire(%s)" % ev.get("kind")
+        if "wired" in sj and sj.get("elapsed", 0) + 1 < sj.get("need", 0):
+            return "C09", "tcp.faster-than-the-route-allows(%s)" % ev.get("kind")
         if ev.get("kind") in ("syn", "syn_ack"):
             return "C07", "tcp.handshake-arrival(%s)" % ev.get("kind")
         return "C05", "tcp.arrival(%s)" % ev.get("kind")
@@ -1031,7 +1053,7 @@ def tcp_pipeline(ctx, owner, n_quick=160, n_thorough=6000, extra_files=()):
                 own, sig = classify_tcp_reject(rj)
                 if rj.get("invariant"):
                     own, sig = "C05", "tcp.invariant." + rj["invariant"]
-                if own == owner:
+                if own == owner or (isinstance(own, tuple) and owner in own):
                     ln = rj["lines"]
                     if len(ln) > 600:
                         ln = ln[:40] + ["..."] + ln[max(0, rj["at"] - 300):rj["at"] + 3]
@@ -1039,6 +1061,23 @@ def tcp_pipeline(ctx, owner, n_quick=160, n_thorough=6000, extra_files=()):
                                   {"trace": ln}, {"kind": "trace", "module": "TraceTcp.tla", "cfg": "Trace_Tcp.cfg"})
                 else:
                     log("[%s] rejected run belongs to %s: %s" % (owner, own, sig))
+                    if owner == "C06" and rj["lines"][-1].startswith('{"e":"End"}'):
+                        # the run is wrong for another property's reason; it is still examined for progress with the
+                        # projection of the specification that does not look at which bytes were delivered
+                        tmp = ctx.path("progress_%d.trace" % len(ctx.nontrivial))
+                        with open(tmp, "w") as fh2:
+                            fh2.write("\n".join(rj["lines"]) + "\n")
+                        ok3, info3 = vlib.tlc_trace(ctx, "TraceTcp.tla", "Trace_Tcp_progress.cfg", tmp, timeout=1500)
+                        if not ok3 and info3.get("matched") == len(rj["lines"]) - 1:
+                            rj3 = {"lines": rj["lines"], "at": info3["matched"], "event": rj["lines"][-1],
+                                   "state": info3.get("state", ""), "state_json": info3.get("state_json")}
+                            own3, sig3 = classify_tcp_reject(rj3)
+                            if own3 == "C06":
+                                ln = rj["lines"]
+                                if len(ln) > 600:
+                                    ln = ln[:40] + ["..."] + ln[-300:]
+                                ctx.violation(sig3, "progress projection of the trace rejected at End | spec: %s" % (rj3["state"] or "")[:600],
+                                              {"trace": ln}, {"kind": "trace", "module": "TraceTcp.tla", "cfg": "Trace_Tcp_progress.cfg"})
             with open(tp) as fh:
                 run = []
                 for line in fh:
@@ -1056,6 +1095,8 @@ def tcp_pipeline(ctx, owner, n_quick=160, n_thorough=6000, extra_files=()):
                             nt = txt.count('"e":"AcceptDone"') >= 1 and (txt.count('"e":"Connect"') >= 2 or '"ec":"refused"' in txt)
                         elif owner == "C13":
                             nt = '"X1"' in txt or '"X2"' in txt
+                        elif owner == "C09":
+                            nt = '"e":"Drop"' in txt or txt.count('"kind":"payload"') >= 6
                         else:
                             nt = '"kind":"payload"' in txt
                         if nt:
